@@ -9,7 +9,7 @@ def run(tier, seed):
     rep = Report("C14", tier, seed, level="proof")
     from contracts import daemon_c as D
 
-    run_contracts(rep, D.daemon_contracts())
+    run_contracts(rep, D.daemon_contracts() + [D.main_contract()])
     rep.add(Ob("mod_daemon#logging_disabled_premise", DISCHARGED if D.logging_is_off() else VIOLATED, kind="scan", backend="scan", target="mod_daemon",
                replayed=True, witness={"module": "mod_daemon"}, detail={"observed": "the last module-level assignment to ENABLE_LOGGING is not the constant False: log()/error() open files and may raise"}
                if not D.logging_is_off() else {}))
